@@ -52,7 +52,10 @@ REQUIRED_COUNTERS = ['datasets_analysed', 'orderings_compared',
                      'datasets_with_A_above_half',
                      'datasets_touching_zero_or_one',
                      'analyses_given_a_list_of_files',
-                     'best_fit_parameters_compared']
+                     'best_fit_parameters_compared',
+                     'datasets_with_chunked_records',
+                     'directories_with_two_families',
+                     'fitted_points_compared_with_planted_counts']
 SHARD_TIMEOUT = {'quick': 900, 'thorough': 3600}
 
 BOX = {'p_th': (0.03, 0.3), 'nu': (0.7, 1.6), 'A': (0.15, 0.7),
@@ -123,7 +126,7 @@ def draw(rng):
     raise RuntimeError('could not draw a well-conditioned data set')
 
 
-def record(L, p, n_trials, n_fail, rng, out_of_codespace=0.0):
+def record(L, p, n_trials, n_fail, rng, out_of_codespace=0.0, axis=None):
     k = 2
     ee = np.zeros((n_trials, 2 * k), dtype=int)
     fail_idx = rng.choice(n_trials, size=n_fail, replace=False)
@@ -142,7 +145,9 @@ def record(L, p, n_trials, n_fail, rng, out_of_codespace=0.0):
                  'n': 2 * L * L, 'k': k, 'd': L},
         'error_model': {'name': 'PauliErrorModel', 'parameters': {
             'r_x': 1 / 3, 'r_y': 1 / 3, 'r_z': 1 / 3,
-            'deformation_name': None, 'deformation_kwargs': {}}},
+            'deformation_name': 'XZZX' if axis else None,
+            'deformation_kwargs': {'deformation_axis': axis} if axis
+            else {}}},
         'decoder': {'name': 'MatchingDecoder',
                     'parameters': {'error_type': None, 'weights': None}},
         'error_rate': p, 'method': {'name': 'direct', 'parameters': {}}},
@@ -152,21 +157,54 @@ def record(L, p, n_trials, n_fail, rng, out_of_codespace=0.0):
                     'codespace': cs.tolist()}}
 
 
-def write_dataset(rng, ds, root, mode, ooc=0.0):
+TRUTH = {}
+
+
+def chunked(L, N, n_fail, rng):
+    """Split one point's trials over several records (jobs of a few trials
+    each, fewer per job for larger codes); some small records hold only
+    failures, some only successes.  Totals are preserved."""
+    sizes = [2, 2, 4, 12, 3][:1 + L % 5]
+    out = []
+    left_n, left_f = N, n_fail
+    for i, sz in enumerate(sizes):
+        if left_n - sz < 1:
+            break
+        kind = (i + L) % 3
+        f = min(sz, left_f) if kind == 0 else 0 if kind == 1 else \
+            min(sz // 2, left_f)
+        if left_f - f > left_n - sz:        # the rest must fit
+            f = left_f - (left_n - sz)
+        out.append((sz, f))
+        left_n -= sz
+        left_f -= f
+    out.append((left_n, left_f))
+    return out
+
+
+def write_dataset(rng, ds, root, mode, ooc=0.0, second=None, chunks=False):
     N = N_EXACT if mode == 'exact' else N_BINOM
     recs = []
-    for li, L in enumerate(ds['ds']):
-        ps_L = list(ds['ps'])
-        # distances are sampled on unequal grids: drop end points for some
-        drop = ds.get('drop', [0] * len(ds['ds']))[li]
-        if drop and len(ps_L) - 2 * drop >= 7:
-            ps_L = ps_L[drop:len(ps_L) - drop]
-        for p in ps_L:
-            f = float(planted(p, L, ds['prm']))
-            f = min(max(f, 0.0), 1.0)
-            n_fail = int(round(N * f)) if mode == 'exact' else \
-                int(rng.binomial(N, f))
-            recs.append((L, p, N, n_fail))
+    fams = [(ds, 'x' if second else None)]
+    if second:
+        fams.append((second, 'y'))
+    for fam_ds, axis in fams:
+        for li, L in enumerate(fam_ds['ds']):
+            ps_L = list(fam_ds['ps'])
+            # distances are sampled on unequal grids: drop end points
+            drop = fam_ds.get('drop', [0] * len(fam_ds['ds']))[li]
+            if drop and len(ps_L) - 2 * drop >= 7:
+                ps_L = ps_L[drop:len(ps_L) - drop]
+            for p in ps_L:
+                f = float(planted(p, L, fam_ds['prm']))
+                f = min(max(f, 0.0), 1.0)
+                n_fail = int(round(N * f)) if mode == 'exact' else \
+                    int(rng.binomial(N, f))
+                parts = chunked(L, N, n_fail, rng) if chunks else \
+                    [(N, n_fail)]
+                for ci, (n_c, f_c) in enumerate(parts):
+                    recs.append((L, p, n_c, f_c, ci, axis))
+                TRUTH[(root, axis, L, round(p, 6))] = (N, n_fail)
     orderings = []
     for o in range(3):
         d = os.path.join(root, f'o{o}')
@@ -183,7 +221,8 @@ def write_dataset(rng, ds, root, mode, ooc=0.0):
             if not fl:
                 continue
             data = [record(L, p, n, nf, np.random.default_rng(
-                [int(L), int(round(p * 1e6))]), ooc) for L, p, n, nf in fl]
+                [int(L), int(round(p * 1e6)), ci]), ooc, axis)
+                for L, p, n, nf, ci, axis in fl]
             if o == 2:
                 # per-job directories reusing one file name, mixed
                 # compression
@@ -202,7 +241,7 @@ def write_dataset(rng, ds, root, mode, ooc=0.0):
     return orderings
 
 
-def analyse(path, as_list=False):
+def analyse(path, as_list=False, expect=1):
     from panqec.analysis import Analysis
     arg = path
     if as_list:
@@ -215,9 +254,81 @@ def analyse(path, as_list=False):
         with contextlib.redirect_stdout(io.StringIO()):
             an = Analysis(arg, verbose=False)
             th = an.thresholds
-    if len(th) != 1:
-        return None, f'{len(th)} threshold rows for one family'
-    return th.iloc[0], None
+    if len(th) != expect:
+        return None, (f'{len(th)} threshold rows for {expect} (code, noise, '
+                      'decoder) combination(s) in the directory')
+    th = th.sort_values('p_th_fss')
+    res = an.get_results()
+    pts = {}
+    for _, rr in res.iterrows():
+        kw = (rr['error_model_params'] or {}).get('deformation_kwargs') or {}
+        pts[(kw.get('deformation_axis'), int(rr['d']),
+             round(float(rr['error_rate']), 6))] = (int(rr['n_trials']),
+                                                    int(rr['n_fail']))
+    analyse.points = pts
+    return [th.iloc[i] for i in range(expect)], None
+
+
+def judge_family(out, ds, rows, mode, desc, mech, j):
+    p_th, nu, A, B, C = ds['prm']
+    r = rows[0]
+    est = float(r['p_th_fss'])
+    err = abs(est - p_th) / ds['w']
+    out.extra.setdefault('rel_errors_' + mode, []).append(
+        round(err, 4))
+    w = dict(desc, p_th_fss=est, left=float(r['p_th_fss_left']),
+             right=float(r['p_th_fss_right']),
+             fit_status=r['fit_status'], rel_err=round(err, 4))
+    tol = TOL_EXACT if mode == 'exact' else TOL_BINOM
+    if r['fit_status'] != 'success':
+        out.violation(f'{mech}/fit-not-successful',
+                      f"fit_status={r['fit_status']!r} on planted "
+                      f'data', w)
+    if not (err <= tol):
+        out.violation(f'{mech}/threshold-off',
+                      f'p_th_fss={est:.6f} vs planted {p_th:.6f}: '
+                      f'{err:.3f} of the half-window (tol {tol})', w)
+    fp = np.asarray(r['fss_params'], dtype=float)
+    if mode == 'exact' and r['fit_status'] == 'success':
+        out.count('best_fit_parameters_compared')
+        perr = abs(fp[0] - p_th) / ds['w'] if np.isfinite(fp[0]) \
+            else float('inf')
+        if not (perr <= TOL_EXACT):
+            out.violation(f'{mech}/best-fit-threshold-off',
+                          f'fss_params[0]={fp[0]:.6f} (the best-fit '
+                          f'threshold) vs planted {p_th:.6f}: '
+                          f'{perr:.3f} of the half-window',
+                          dict(w, fss_params=fp))
+        elif not np.allclose(fp, [p_th, nu, A, B, C], rtol=0.1,
+                             atol=0.05):
+            out.violation(f'{mech}/best-fit-parameters-off',
+                          f'fss_params={np.round(fp, 4).tolist()} '
+                          'vs planted '
+                          f'{[round(x, 4) for x in ds["prm"]]}',
+                          dict(w, fss_params=fp))
+    if not (r['p_th_fss_left'] <= est <= r['p_th_fss_right']):
+        out.violation(f'{mech}/estimate-outside-own-interval',
+                      f'p_th_fss {est} not in [{r["p_th_fss_left"]},'
+                      f' {r["p_th_fss_right"]}]', w)
+    if not (r['p_left'] <= est <= r['p_right']):
+        out.violation(f'{mech}/estimate-outside-data-range',
+                      f'p_th_fss {est} not in data range '
+                      f'[{r["p_left"]}, {r["p_right"]}]', w)
+    for o, r2 in enumerate(rows[1:], 1):
+        out.count('orderings_compared')
+        for col in ('p_th_fss', 'p_th_fss_left', 'p_th_fss_right'):
+            if abs(float(r2[col]) - float(r[col])) > 1e-12:
+                out.violation(f'{mech}/order-dependent',
+                              f'{col} differs between two orderings '
+                              f'of the same files/rows: {r[col]} vs '
+                              f'{r2[col]}', w)
+                break
+        if np.max(np.abs(np.asarray(r2['fss_params'], dtype=float) -
+                         np.asarray(r['fss_params'], dtype=float))) \
+                > 1e-12:
+            out.violation(f'{mech}/order-dependent-params',
+                          'fss_params differ between orderings', w)
+    out.case(desc, True, sample=w if j == 0 else None)
 
 
 def run_block(task, out):
@@ -243,11 +354,29 @@ def run_block(task, out):
                 out.count('datasets_with_out_of_codespace_trials')
             if A > 0.5:
                 out.count('datasets_with_A_above_half')
-            ords = write_dataset(rng, ds, root, mode, ooc)
+            # trials of one point delivered as several small records
+            chunks = (j + task['i']) % 2 == 1
+            desc['chunked'] = chunks
+            if chunks:
+                out.count('datasets_with_chunked_records')
+            # a second planted family in the same directory whose noise model
+            # differs only inside deformation_kwargs
+            second = None
+            if rng.random() < 0.3:
+                d2 = draw(rng)
+                if abs(d2['prm'][0] - p_th) > 1.5 * (d2['w'] + ds['w']):
+                    second = d2
+                    out.count('directories_with_two_families')
+            desc['two_families'] = second is not None
+            ords = write_dataset(rng, ds, root, mode, ooc, second=second,
+                                 chunks=chunks)
+            fams = sorted([ds] + ([second] if second else []),
+                          key=lambda x: x['prm'][0])
             rows = []
             for oi, o in enumerate(ords):
                 try:
-                    row, err = analyse(o, as_list=(oi == 1))
+                    row, err = analyse(o, as_list=(oi == 1),
+                                       expect=len(fams))
                     if oi == 1:
                         out.count('analyses_given_a_list_of_files')
                 except Exception as e:
@@ -263,70 +392,36 @@ def run_block(task, out):
                     rows = None
                     break
                 rows.append(row)
+                # the points the fit was made on are the planted ones
+                want = {k[1:]: v for k, v in TRUTH.items() if k[0] == root}
+                out.count('fitted_points_compared_with_planted_counts',
+                          len(want))
+                if analyse.points != want:
+                    diff = [(k, analyse.points.get(k), v)
+                            for k, v in sorted(want.items(), key=repr)
+                            if analyse.points.get(k) != v][:3]
+                    out.violation(f'{mech}/points-not-the-planted-counts',
+                                  'the (n_trials, n_fail) the analysis holds '
+                                  'for some points are not the totals of the '
+                                  f'records: {diff}', desc)
+                    rows = None
+                    break
             if not rows:
                 continue
             out.count('datasets_analysed')
             out.count('exact_count_datasets' if mode == 'exact'
                       else 'binomial_datasets')
-            r = rows[0]
-            est = float(r['p_th_fss'])
-            err = abs(est - p_th) / ds['w']
-            out.extra.setdefault('rel_errors_' + mode, []).append(
-                round(err, 4))
-            w = dict(desc, p_th_fss=est, left=float(r['p_th_fss_left']),
-                     right=float(r['p_th_fss_right']),
-                     fit_status=r['fit_status'], rel_err=round(err, 4))
-            tol = TOL_EXACT if mode == 'exact' else TOL_BINOM
-            if r['fit_status'] != 'success':
-                out.violation(f'{mech}/fit-not-successful',
-                              f"fit_status={r['fit_status']!r} on planted "
-                              f'data', w)
-            if not (err <= tol):
-                out.violation(f'{mech}/threshold-off',
-                              f'p_th_fss={est:.6f} vs planted {p_th:.6f}: '
-                              f'{err:.3f} of the half-window (tol {tol})', w)
-            fp = np.asarray(r['fss_params'], dtype=float)
-            if mode == 'exact' and r['fit_status'] == 'success':
-                out.count('best_fit_parameters_compared')
-                perr = abs(fp[0] - p_th) / ds['w'] if np.isfinite(fp[0]) \
-                    else float('inf')
-                if not (perr <= TOL_EXACT):
-                    out.violation(f'{mech}/best-fit-threshold-off',
-                                  f'fss_params[0]={fp[0]:.6f} (the best-fit '
-                                  f'threshold) vs planted {p_th:.6f}: '
-                                  f'{perr:.3f} of the half-window',
-                                  dict(w, fss_params=fp))
-                elif not np.allclose(fp, [p_th, nu, A, B, C], rtol=0.1,
-                                     atol=0.05):
-                    out.violation(f'{mech}/best-fit-parameters-off',
-                                  f'fss_params={np.round(fp, 4).tolist()} '
-                                  'vs planted '
-                                  f'{[round(x, 4) for x in ds["prm"]]}',
-                                  dict(w, fss_params=fp))
-            if not (r['p_th_fss_left'] <= est <= r['p_th_fss_right']):
-                out.violation(f'{mech}/estimate-outside-own-interval',
-                              f'p_th_fss {est} not in [{r["p_th_fss_left"]},'
-                              f' {r["p_th_fss_right"]}]', w)
-            if not (r['p_left'] <= est <= r['p_right']):
-                out.violation(f'{mech}/estimate-outside-data-range',
-                              f'p_th_fss {est} not in data range '
-                              f'[{r["p_left"]}, {r["p_right"]}]', w)
-            for o, r2 in enumerate(rows[1:], 1):
-                out.count('orderings_compared')
-                for col in ('p_th_fss', 'p_th_fss_left', 'p_th_fss_right'):
-                    if abs(float(r2[col]) - float(r[col])) > 1e-12:
-                        out.violation(f'{mech}/order-dependent',
-                                      f'{col} differs between two orderings '
-                                      f'of the same files/rows: {r[col]} vs '
-                                      f'{r2[col]}', w)
-                        break
-                if np.max(np.abs(np.asarray(r2['fss_params'], dtype=float) -
-                                 np.asarray(r['fss_params'], dtype=float))) \
-                        > 1e-12:
-                    out.violation(f'{mech}/order-dependent-params',
-                                  'fss_params differ between orderings', w)
-            out.case(desc, True, sample=w if j == 0 else None)
+            for fi, fds in enumerate(fams):
+                fp_th, fnu, fA, fB, fC = fds['prm']
+                fdesc = dict(desc, p_th=round(fp_th, 6), nu=round(fnu, 4),
+                             A=round(fA, 4), B=round(fB, 4), C=round(fC, 4),
+                             distances=fds['ds'],
+                             half_window=round(fds['w'], 6), family=fi)
+                judge_family(out, fds, [rr[fi] for rr in rows], mode, fdesc,
+                             mech, j)
         finally:
+            for k in [k for k in TRUTH if k[0] == root]:
+                del TRUTH[k]
             shutil.rmtree(root, ignore_errors=True)
 
 
